@@ -50,6 +50,22 @@ CHECKS = {
          'results. Receiver typing of non-self stores uses the repository naming convention; user callbacks and '
          'custom parser classes are outside the rule.'),
    technique='AST effect analysis (self/alias/class-level/shared-receiver stores), memo-idiom and cache-key completeness, freshness-depth analysis'),
+ 'C12': dict(level='other', design='DESIGN.md section 5, C12',
+   text=('Decides the gates through which comments, formula content and discarded constructs can reach the output: '
+         'every return of comment_node_to_text / math_node_to_text / *_node_to_text is classified by the guard facts '
+         'that dominate it (keep_comments, math_mode literal, discard flag); the default walker and latex2text tables '
+         'are evaluated (declarative-table evaluator) to check every math environment is routed through the switch and '
+         'which entries rely on the default discard flag.'),
+   note=('Rendered strings are not computed; user-supplied specs are outside the cross-table rule. One known finding '
+         '(split environment) is listed in known_findings.json.'),
+   technique='AST guard-fact classification of return sites + evaluation of the declarative default tables (cross-table agreement)'),
+ 'C20': dict(level='other', design='DESIGN.md section 5, C20',
+   text=('Decides the algebraic shape of the position->(line,column) map (column = pos - T[i] with the same raw index i '
+         'that yields the line, first-line offset selected on the raw index, offsets forwarded under their own names) and '
+         'that errors are annotated from their own position under a guard that keeps position 0; so pos = T[i] + col - offset '
+         'holds by construction for all strings and positions.'),
+   note='Trusted: bisect_right semantics and that _pos_new_lines is the sorted table of line starts (value-level, not decided).',
+   technique='AST def-use / algebraic shape check of pos_to_lineno_colno, option forwarding by name, truthiness-of-position rule'),
 }
 
 NOT_YET = {}
